@@ -155,13 +155,18 @@ def check(ctx: Ctx, ev: Evidence) -> list[Finding]:
                     ev.inst("C14-R3", k, "violation" if tidv is None else "ok", x.site)
                     if tidv is None:
                         out.append(Finding("C14-R3", k, f"{x.name} is issued with transaction_id=None (the parameter block was replaced earlier in the call)", x.site, witness_of(a, e)))
-            kinds = {x.name.split(".")[1] for _, x in cbs}
-            if "abandoned_cb" in kinds and len(kinds) > 1:
-                k = f"{which} handler | abandonment together with {sorted(kinds - {'abandoned_cb'})} in one call"
-                if k not in seen:
-                    seen.add(k)
-                    ev.inst("C14-R3", k, "violation", cbs[0][1].site)
-                    out.append(Finding("C14-R3", k, f"one fault declaration fires the abandon callback and also {sorted(kinds - {'abandoned_cb'})}: another callback kind than the configured one is invoked", cbs[0][1].site, witness_of(a, e)))
+            # "no other callback kind fires for that fault": per declared condition one kind; and nothing is declared any more
+            # once the transaction was abandoned in this call (an earlier, ignored fault of the same call is legitimate)
+            ab = [j for j, (_i, x) in enumerate(cbs) if x.name == "fault.abandoned_cb"]
+            if ab:
+                same = {x.name.split(".")[1] for _i, x in cbs if ename(x.args[1]) == ename(cbs[ab[0]][1].args[1])} - {"abandoned_cb"}
+                later = sorted({x.name.split(".")[1] + "(" + ename(x.args[1]) + ")" for _i, x in cbs[ab[0] + 1:]})
+                if same or later:
+                    k = f"{which} handler | abandonment of {ename(cbs[ab[0]][1].args[1])}" + (f" together with {sorted(same)} for the same condition" if same else "") + (f" followed by {later} in the same call" if later else "")
+                    if k not in seen:
+                        seen.add(k)
+                        ev.inst("C14-R3", k, "violation", cbs[ab[0]][1].site)
+                        out.append(Finding("C14-R3", k, "a fault whose configured code is ABANDON fires another callback kind as well, or further faults are declared after the transaction was abandoned in the same call", cbs[ab[0]][1].site, witness_of(a, e)))
             for _i, x in cbs:
                 tidv = x.args[0]
                 k = f"{which} handler | {x.name} transaction id {'None' if tidv is None else 'set'}"
